@@ -526,12 +526,13 @@ pub fn run(ctx: &Ctx, started: Instant) -> i32 {
     failing_encodes(&mut stats);
     v3_limits(ctx, &mut stats);
     reported_sizes(ctx, &mut stats);
+    conn_limits(&mut stats);
     let report = Report {
         level: "exploration",
         rule: "ack-heavy proptest packets (PUBACK family, SUBACK/UNSUBACK with up to 80 codes, CONNACK, DISCONNECT, AUTH, reason strings up to 65535 bytes, \
                up to 40 user properties) x every outbound limit 1..=64, 0, sampled 65..4096 and {65535, 65536, 2^21, 2^28-1, 2^28, u32::MAX} x Request-Problem-Information \
                on/off (flag set through the public path: the codec decodes a CONNECT); sampled (any packet, any limit) pairs with shrinking; encodes that must fail \
-               (over-long strings/binary, QoS 0 with id, QoS>0 without) checked for leftover bytes; v3 packets x max size; var_int_len / var_int_len_from_size relation. \
+               (over-long strings/binary, QoS 0 with id, QoS>0 without) checked for leftover bytes; v3 packets x max size; var_int_len / var_int_len_from_size relation; connection level (v5 server): CONNECT Maximum Packet Size 8..300 x handshake accepted / refused with a bare code / refused with a CONNACK carrying a reason string of 0..250 bytes and 0..8 user properties: no frame the server writes (CONNACK, the DISCONNECT after a later protocol error) exceeds the announced maximum. \
                Non-trivial = limit in force and (something dropped, over-size error, or limit < 16), or problem info stripped, or a failing encode; distinct = (kind, limit bucket, \
                #props dropped, reason dropped, outcome, flag)"
             .into(),
@@ -546,9 +547,96 @@ pub fn run(ctx: &Ctx, started: Instant) -> i32 {
     finish(ctx, started, stats, report)
 }
 
+// ---------------------------------------------------------------------------------------------
+// connection level: the limit the peer announced in CONNECT is in force for everything the server writes,
+// the CONNACK of a refused handshake included
+// ---------------------------------------------------------------------------------------------
+
+#[derive(Clone, Copy, Debug, PartialEq, Eq, Hash, Serialize, Deserialize)]
+pub struct ConnCase {
+    /// Maximum Packet Size in the client's CONNECT
+    pub max: u32,
+    /// 0 accept, 1 refuse with a bare reason code, 2 refuse with a CONNACK that carries diagnostics
+    pub outcome: u8,
+    pub reason_len: u16,
+    pub props: u8,
+}
+
+pub async fn run_conn(c: ConnCase) -> Result<CaseInfo, Failure> {
+    use crate::bed::any::{Cfg, Eut};
+    use crate::bed::v5::{Hs5, WireTail};
+    let mut cfg = Cfg::default();
+    cfg.v5.connect.max_packet_size = Some(c.max);
+    cfg.v5.hs = match c.outcome % 3 {
+        0 => Hs5::default(),
+        1 => Hs5::Refuse(0x87),
+        _ => Hs5::RefuseWith { code: 0x87, reason_len: c.reason_len, props: c.props },
+    };
+    let eut = Eut::start(crate::bed::Role::V5Server, &cfg).await;
+    let _ = eut.handshake(&cfg).await;
+    if c.outcome % 3 == 0 {
+        // a protocol error after an accepted handshake: the DISCONNECT is subject to the limit too
+        eut.peer_send(&P5::PubAck(s5::Ack5 { pid: 9, ..Default::default() }), &[]);
+        eut.settle().await;
+    }
+    let (pk, tail) = eut.packets();
+    let fail = |rule: &str, d: String| Failure::new(rule, format!("C09/conn/{rule}"), format!("{d}; case {c:?}")).with_case(json!({"kind": "conn", "case": c}));
+    if let WireTail::Garbage { at, why } = &tail {
+        return Err(fail("wire-garbage", format!("output does not parse at {at}: {why}")));
+    }
+    let mut start = 0usize;
+    for w in &pk {
+        let len = w.end - start;
+        start = w.end;
+        if len as u32 > c.max {
+            return Err(fail("frame-above-peer-maximum", format!("{:?} frame of {len} bytes written to a peer that announced Maximum Packet Size {}", w.pkt.kind(), c.max)));
+        }
+    }
+    let connack = pk.iter().find_map(|w| if let P5::ConnAck(a) = &w.pkt { Some(a.clone()) } else { None });
+    match (c.outcome % 3, &connack) {
+        // (a CONNACK that cannot fit the announced maximum may be missing altogether)
+        (0, Some(a)) if a.reason != 0 => return Err(fail("accepted-connack", format!("accepted handshake, CONNACK carries {:#x}", a.reason))),
+        (0, _) => {}
+        // a refusal that does not fit may be dropped altogether, never sent as success
+        (_, Some(a)) if a.reason != 0x87 => return Err(fail("refusal-connack", format!("refused with 0x87, CONNACK carries {:#x}", a.reason))),
+        _ => {}
+    }
+    eut.finish().await;
+    let shed = c.outcome % 3 == 2 && connack.as_ref().is_some_and(|a| a.reason_string.is_none() || a.user_props.len() < usize::from(c.props));
+    let mut info = if c.outcome % 3 != 0 { CaseInfo::nontrivial(&("conn", c)) } else { CaseInfo::trivial() };
+    info.labels.push("conn-limit");
+    if shed {
+        info.labels.push("conn-connack-diagnostics-shed");
+    }
+    if c.outcome % 3 != 0 && connack.is_none() {
+        info.labels.push("conn-refusal-not-sent");
+    }
+    Ok(info)
+}
+
+fn conn_limits(stats: &mut Stats) {
+    let mut work = Vec::new();
+    for max in [8u32, 12, 16, 24, 40, 64, 100, 300] {
+        work.push(ConnCase { max, outcome: 0, reason_len: 0, props: 0 });
+        work.push(ConnCase { max, outcome: 1, reason_len: 0, props: 0 });
+        for reason_len in [0u16, 3, 20, 60, 250] {
+            for props in [0u8, 1, 3, 8] {
+                work.push(ConnCase { max, outcome: 2, reason_len, props });
+            }
+        }
+    }
+    let mut st = Stats::default();
+    crate::bed::run_list_bed("C09", work, &mut st, |c| json!({"kind": "conn", "case": c}), run_conn);
+    stats.merge(st);
+}
+
 pub fn replay(path: &str) -> i32 {
     let case = super::load_case(path);
     match case["kind"].as_str() {
+        Some("conn") => {
+            let res = serde_json::from_value::<ConnCase>(case["case"].clone()).map_err(|e| e.to_string()).map(|c| crate::bed::run_isolated("C09", c, &run_conn));
+            super::report_replay("C09", path, res)
+        }
         Some("limit") => {
             let res = serde_json::from_value::<Case>(case["case"].clone()).map_err(|e| e.to_string()).map(|c| check_case(&c));
             super::report_replay("C09", path, res)
